@@ -772,7 +772,9 @@ def _serialise(col: dict) -> dict:
     """Replace z3 expressions by SMT-LIB text so that a collection can cross a process boundary."""
     col['obs'] = [smt.TextObligation(o.name, o.kind, o.lineno, o.note, o.path,
                                      smt.to_smt2(o.pc, None, negate=False) if o.kind == 'cover'
-                                     else smt.to_smt2(o.pc, o.goal)) for o in col['obs']]
+                                     else smt.to_smt2(o.pc, o.goal),
+                                     smt.to_smt2(list(o.pc) + list(o.hints), o.goal)
+                                     if o.kind != 'cover' and getattr(o, 'hints', None) else '') for o in col['obs']]
     col['module'], col['qualname'] = col['mod'].name, _qual(col)
     col['inlined'], col['summaries'] = sorted(col['inlined']), sorted(col['summaries'])
     return col
